@@ -1620,6 +1620,7 @@ class Executor:
             raise Unsupported('instruction ' + op)
 
     check_overflow = False
+    undefined_handler = None
 
     def nsw_check(self, st, op, ty, a, b):
         if isinstance(a, int) and isinstance(b, int):
@@ -1675,6 +1676,11 @@ class Executor:
             return
         fn = self.m.functions.get(name)
         if fn is None:
+            if self.undefined_handler is not None:
+                r = self.undefined_handler(self, st, name, args, I)
+                if r is not NotImplemented:
+                    self.finish_call(st, fr, I, r)
+                    return
             raise Unsupported('call to undefined function %s (from %s)' % (name, self.where(st)))
         nf = Frame(fn)
         if len(args) != len(fn.params):
